@@ -84,9 +84,19 @@ def path(ctx, cfg):
     cover, V = fork_cover(ctx, cfg)
     z = cfg["z"]
     desc = f"cover={cover}"
-    obj = ctx.guard("loader-raised", JointDegreeCover, {JN.COVER: [list(c) for c in cover]})
+    if cfg["kind"] == "all" and V <= 4 and ctx.fork_bool(ctx.bool("via_setter")):
+        # the loader object first holds another cover; the cover under test arrives through the public setter + create_jdd()
+        obj = ctx.guard("loader-raised", JointDegreeCover, {JN.COVER: [[z, z + 1, z + 2, z + 3, z + 4], [z + 4, z + 5]]})
+        obj.cover = [list(c) for c in cover]
+        ctx.guard("loader-raised", obj.create_jdd)
+        desc += " (given to a loader that held another cover before)"
+        second = True
+    else:
+        obj = ctx.guard("loader-raised", JointDegreeCover, {JN.COVER: [list(c) for c in cover]})
+        second = False
     sizes = sorted({len(c) for c in cover})
-    ctx.require(list(obj.motif_sizes) == sizes, "motif-sizes", f"{desc}: motif_sizes={obj.motif_sizes}, expected {sizes}", twin=(list(obj.motif_sizes) == sizes + [9]))
+    if not second:  # motif_sizes is computed in the constructor only; after the setter it describes the earlier cover (not part of the claim)
+        ctx.require(list(obj.motif_sizes) == sizes, "motif-sizes", f"{desc}: motif_sizes={obj.motif_sizes}, expected {sizes}", twin=(list(obj.motif_sizes) == sizes + [9]))
     rows = {}
     for v in range(z, z + V):
         rows[v] = tuple(sum(1 for c in cover if len(c) == s and v in c) for s in sizes)
